@@ -1010,22 +1010,56 @@ where
 }
 
 // Verification hooks: forwarding wrappers and function-pointer getters for the private operator
-// functions, instantiated at `Val<i32, f64>`. No logic. Compiled only with `--cfg exmex_verif`.
+// functions. No logic. Compiled only with `--cfg exmex_verif`.
 #[cfg(exmex_verif)]
 #[doc(hidden)]
 pub mod verif_hooks {
     use super::Val;
-    pub type V = Val<i32, f64>;
+    use crate::data_type::DataType;
+    use num::{Float, PrimInt, Signed};
+    use std::{fmt::Debug, str::FromStr};
     macro_rules! fwd1 {
         ($($v:ident, $p:ident => $f:ident);* $(;)?) => { $(
-            pub fn $v(a: V) -> V { super::$f(a) }
-            pub fn $p() -> fn(V) -> V { super::$f::<i32, f64> }
+            pub fn $v<I, F>(a: Val<I, F>) -> Val<I, F>
+            where
+                I: DataType + PrimInt + Signed,
+                F: DataType + Float,
+                <I as FromStr>::Err: Debug,
+                <F as FromStr>::Err: Debug,
+            {
+                super::$f(a)
+            }
+            pub fn $p<I, F>() -> fn(Val<I, F>) -> Val<I, F>
+            where
+                I: DataType + PrimInt + Signed,
+                F: DataType + Float,
+                <I as FromStr>::Err: Debug,
+                <F as FromStr>::Err: Debug,
+            {
+                super::$f::<I, F>
+            }
         )* }
     }
     macro_rules! fwd2 {
         ($($v:ident, $p:ident => $f:ident);* $(;)?) => { $(
-            pub fn $v(a: V, b: V) -> V { super::$f(a, b) }
-            pub fn $p() -> fn(V, V) -> V { super::$f::<i32, f64> }
+            pub fn $v<I, F>(a: Val<I, F>, b: Val<I, F>) -> Val<I, F>
+            where
+                I: DataType + PrimInt + Signed,
+                F: DataType + Float,
+                <I as FromStr>::Err: Debug,
+                <F as FromStr>::Err: Debug,
+            {
+                super::$f(a, b)
+            }
+            pub fn $p<I, F>() -> fn(Val<I, F>, Val<I, F>) -> Val<I, F>
+            where
+                I: DataType + PrimInt + Signed,
+                F: DataType + Float,
+                <I as FromStr>::Err: Debug,
+                <F as FromStr>::Err: Debug,
+            {
+                super::$f::<I, F>
+            }
         )* }
     }
     fwd2!(
